@@ -89,7 +89,7 @@ nni_time g_now;
 	                        ((q).n == 1 || (q).tail != (q).head))))
 #define VP_AIOQS_OK                                                        \
 	(VP_AIOQ_OK(g_qa) && VP_AIOQ_OK(g_qb) && g_qa.n <= 8 && g_qb.n <= 8 && \
-	    !(g_qa.n > 0 && g_qb.n > 0 && g_qa.tail == g_last_app && g_qb.tail == g_last_app) && \
+	    !(g_qa.n > 0 && g_qb.n > 0 && g_qa.tail != NULL && g_qa.tail == g_last_app && g_qb.tail == g_last_app) && \
 	    (g_qa.n == 0 || g_qb.n == 0 ||                                     \
 	        (g_qa.head != g_qb.head && g_qa.head != g_qb.tail &&           \
 	            (g_qa.tail == NULL || (g_qa.tail != g_qb.head && g_qa.tail != g_qb.tail)))))
